@@ -168,15 +168,11 @@ theorem valSExp_clean (v : Val) (h : (∃ s, v = .str s ∧ s.all isStringChar =
 
 theorem clean_validIdent_of_check (i : Str) (h : checkEdifIdentifier i = true) : (SExp.atom i).clean := clean_ident i h
 
-/-- property identifiers only need to be valid identifier TOKENS for the reader; for cleanliness we use
-    that they contain no delimiter (they come from `PropOK` + the hypothesis below) -/
-theorem propSExp_clean (t : PropT) (h : PropOK t.1 t.2.1 t.2.2) (hplain : ∀ c ∈ t.1, plainChar c = true)
+theorem propSExp_clean (t : PropT) (h : PropOK t.1 t.2.1 t.2.2)
     (e : SExp) (he : propSExp t.obj = .ok e) : e.clean := by
   obtain ⟨ident, orig, v⟩ := t
   obtain ⟨r, hr, _⟩ := prop_roundtrip ident orig v h
-  have hne : ident ≠ [] := by
-    intro e0; have := h.hid; simp [e0, validIdentTok] at this
-  have hid : (SExp.atom ident).clean := Or.inl ⟨hne, hplain⟩
+  have hid : (SExp.atom ident).clean := clean_ident ident h.hc
   have hr' : propSExp (PropT.obj (ident, orig, v)) = .ok (.list (A "property" :: r)) := hr
   rw [he] at hr'
   cases hr'
@@ -208,12 +204,9 @@ theorem propSExp_clean (t : PropT) (h : PropOK t.1 t.2.1 t.2.2) (hplain : ∀ c 
     exact clean_list _ ⟨by kw, clean_list _ ⟨by kw, hid, clean_qtok o ho, trivial⟩, htvc, trivial⟩
 
 
-/-- the property identifiers of an element contain no delimiter (they are EDIF identifiers) -/
-def PropIdentsPlain (d : Data) : Prop := ∀ t ∈ decodeProps d, ∀ c ∈ t.1, plainChar c = true
-
 theorem propsOf_clean (d : Data) (h : d.get? kPROPS = none ∨
       ∃ ps, d.get? kPROPS = some (.list ps) ∧ ∀ v ∈ ps, ∃ t, decodeProp v = some t ∧ PropOK t.1 t.2.1 t.2.2)
-    (hpl : PropIdentsPlain d) (es : List SExp) (he : propsOf d = .ok es) : ∀ e ∈ es, e.clean := by
+    (es : List SExp) (he : propsOf d = .ok es) : ∀ e ∈ es, e.clean := by
   unfold propsOf at he
   rw [show S "EDIF.properties" = kPROPS from rfl] at he
   rcases h with hp | ⟨ps, hp, hall⟩
@@ -225,14 +218,11 @@ theorem propsOf_clean (d : Data) (h : d.get? kPROPS = none ∨
     intro v hv y hy
     obtain ⟨t, ht, hok⟩ := hall v hv
     have hobj := decodeProp_obj v t ht
-    have hmem : t ∈ decodeProps d := by
-      simp only [decodeProps, hp]
-      exact List.mem_filterMap.mpr ⟨v, hv, ht⟩
     rw [← hobj] at hy
-    exact propSExp_clean t hok (hpl t hmem) y hy
+    exact propSExp_clean t hok y hy
 
 theorem instSExp_clean (libs : List CLib) (hn : NetNames libs) (L D : Nat) (i : CInst) (h : InstWF libs L D i)
-    (hpl : PropIdentsPlain i.data) (e : SExp) (he : instSExp libs i = .ok e) : e.clean := by
+    (e : SExp) (he : instSExp libs i = .ok e) : e.clean := by
   obtain ⟨li, di, l2, rd, href, h2, hrd, _⟩ := h.ref
   have hl2mem : l2 ∈ libs := List.mem_of_getElem? h2
   have hrdmem : rd ∈ l2.defs := List.mem_of_getElem? hrd
@@ -248,7 +238,7 @@ theorem instSExp_clean (libs : List CLib) (hn : NetNames libs) (L D : Nat) (i : 
     cases hp : propsOf i.data with
     | error x => simp [hp] at he
     | ok es =>
-      have hes := propsOf_clean i.data h.props hpl es hp
+      have hes := propsOf_clean i.data h.props es hp
       simp only [hp, pure, Except.pure, Except.ok.injEq] at he
       subst he
       exact clean_list _ ⟨by kw, hnmc, clean_list _ ⟨by kw, by kw, clean_list _ ⟨by kw, clean_ident _ hdn.hc,
@@ -326,10 +316,6 @@ theorem cableSExps_clean (libs : List CLib) (hn : NetNames libs) (L D : Nat) (l 
         clean_list _ ⟨by kw, cleanL_of_forall ps hps⟩, trivial⟩
 
 
-/-- all property identifiers of the netlist's instances are free of delimiters -/
-def NetPropsPlain (n : CNetlist) : Prop :=
-  ∀ l ∈ n.libs, ∀ d ∈ l.defs, ∀ i ∈ d.insts, PropIdentsPlain i.data
-
 theorem flatten_forall {α : Type} (P : α → Prop) (xss : List (List α)) (h : ∀ xs ∈ xss, ∀ x ∈ xs, P x) :
     ∀ x ∈ xss.flatten, P x := by
   intro x hx
@@ -337,7 +323,7 @@ theorem flatten_forall {α : Type} (P : α → Prop) (xss : List (List α)) (h :
   exact h xs hxs x hxm
 
 theorem defSExp_clean (libs : List CLib) (hn : NetNames libs) (L D : Nat) (l : CLib) (hl : libs[L]? = some l)
-    (d : CDef) (hd : l.defs[D]? = some d) (h : CellWF libs L D d) (hpl : ∀ i ∈ d.insts, PropIdentsPlain i.data)
+    (d : CDef) (hd : l.defs[D]? = some d) (h : CellWF libs L D d)
     (e : SExp) (he : defSExp libs d = .ok e) : e.clean := by
   have hlmem : l ∈ libs := List.mem_of_getElem? hl
   have hdmem : d ∈ l.defs := List.mem_of_getElem? hd
@@ -358,7 +344,7 @@ theorem defSExp_clean (libs : List CLib) (hn : NetNames libs) (L D : Nat) (l : C
       | error x => simp [hi] at he
       | ok is =>
         have his : ∀ e ∈ is, e.clean := mapM_forall (instSExp libs) SExp.clean d.insts is
-          (fun i him e' he' => instSExp_clean libs hn L D i (h.insts i him) (hpl i him) e' he') hi
+          (fun i him e' he' => instSExp_clean libs hn L D i (h.insts i him) e' he') hi
         simp only [hi] at he
         cases hc : d.cables.mapM (cableSExps libs d) with
         | error x => simp [hc] at he
@@ -379,7 +365,6 @@ theorem defSExp_clean (libs : List CLib) (hn : NetNames libs) (L D : Nat) (l : C
 
 theorem libSExp_clean (libs : List CLib) (hn : NetNames libs) (L : Nat) (l : CLib) (hl : libs[L]? = some l)
     (hcells : ∀ D d, l.defs[D]? = some d → CellWF libs L D d)
-    (hpl : ∀ d ∈ l.defs, ∀ i ∈ d.insts, PropIdentsPlain i.data)
     (e : SExp) (he : libSExp libs l = .ok e) : e.clean := by
   have hlmem : l ∈ libs := List.mem_of_getElem? hl
   unfold libSExp at he
@@ -397,7 +382,7 @@ theorem libSExp_clean (libs : List CLib) (hn : NetNames libs) (L : Nat) (l : CLi
         intro d hdm e' he'
         obtain ⟨D, hD, hDe⟩ := List.getElem_of_mem hdm
         have hget : l.defs[D]? = some d := by rw [List.getElem?_eq_getElem hD, hDe]
-        exact defSExp_clean libs hn L D l hl d hget (hcells D d hget) (hpl d hdm) e' he'
+        exact defSExp_clean libs hn L D l hl d hget (hcells D d hget) e' he'
       simp only [hc, pure, Except.pure, Except.ok.injEq] at he
       subst he
       exact clean_list _ ⟨by kw, hnmc, clean_list _ ⟨by kw, by kw, trivial⟩,
@@ -455,7 +440,7 @@ theorem statusSExp_clean (Dn : Data) (prog ver : Option Str) (y mo d h mi s : Na
 /-- **toSExp_clean**: inside the quantifier the writer's expression is clean — identifiers are
     `[0-9A-Za-z_&]`, names and strings printable without a double quote — so `lex_layout` applies -/
 theorem toSExp_clean (n : CNetlist) (prog ver : Option Str) (t : CInst) (li di : Nat) (y mo d h mi s : Nat)
-    (hwf : WFNet n prog ver t li di) (hpl : NetPropsPlain n) (e : SExp)
+    (hwf : WFNet n prog ver t li di) (e : SExp)
     (he : toSExp [y, mo, d, h, mi, s] n = .ok e) : e.clean := by
   obtain ⟨l, dd, hl, hd⟩ := hwf.ttarget
   have hlmem : l ∈ n.libs := List.mem_of_getElem? hl
@@ -482,7 +467,7 @@ theorem toSExp_clean (n : CNetlist) (prog ver : Option Str) (t : CInst) (li di :
           intro l2 hl2 e' he'
           obtain ⟨L, hL, hLe⟩ := List.getElem_of_mem hl2
           have hget : n.libs[L]? = some l2 := by rw [List.getElem?_eq_getElem hL, hLe]
-          exact libSExp_clean n.libs hwf.names L l2 hget (hwf.cells L l2 hget) (hpl l2 hl2) e' he'
+          exact libSExp_clean n.libs hwf.names L l2 hget (hwf.cells L l2 hget) e' he'
         simp only [hls, hwf.top] at he
         cases htn : nameSExp t.data "top instance" with
         | error x => simp [htn] at he
